@@ -143,7 +143,7 @@ def main(tier):
     replay.stream(chk, 'MC_C06_chars', {'MaxLen': maxlen, 'Classes': classes}, 'chars%d' % maxlen, _work, _init,
                   is_header=lambda v: False, chunk=40 if tier == 'quick' else 200)
     # longer strings: sampled walks (every prefix of a walk is a case)
-    num, depth = (1500, 6) if tier == 'quick' else (40000, 8)
+    num, depth = (500, 6) if tier == 'quick' else (40000, 8)
     cases = []
     cfg = replay.write_cfg('chars-sim', {'MaxLen': depth, 'Classes': classes}, next_='NextSim')
     try:
